@@ -235,7 +235,14 @@ class GridMachine(BaseCheck):
         events = []
         rows = [mk_row(hs, s) for s in case['rows']]
         unique = case['class'] == 'unique-str'
-        root, rmodel = self._new_root(case, rows)
+        try:
+            root, rmodel = self._new_root(case, rows)
+        except Exception as e:
+            v = {'clause': 'mutator-crash', 'detail': {'step': 'init', 'exc': type(e).__name__, 'msg': str(e)[:200],
+                                                       'why': 'appending dict rows to a new grid raised'}}
+            if 'mutator-crash' not in own:
+                v = {'clause': 'crash', 'detail': dict(v['detail'], why='building the id index while appending rows raised')}
+            return {'viol': v, 'digest': rng.digest(['init-crash']), 'stats': stats, 'distinct': [], 'nontrivial': False, 'steps': 0}
         pool = [(root, rmodel)]
         used_keys = []          # every id value ever used in this run (present, deleted, replaced)
         for row in rows:
